@@ -45,8 +45,13 @@ NS = {'vlib': __import__('vlib'), 'collections': collections}
 
 # ------------------------------------------------------------------ values
 class Leafs:
-    def __init__(self):
+    def __init__(self, alias=False):
         self.n = 1000
+        # aliasing: with alias=True a finished container may be used again as a child elsewhere (the SAME object at another nesting level;
+        # only finished containers are reused, so the value stays acyclic)
+        self.alias = alias
+        self.pool = []
+        self.hpool = []
 
     def next(self, kind=None):
         self.n += 1
@@ -149,6 +154,20 @@ def stdlib_leaf(rng, n):
 
 
 def _rand_value(rng, depth, lf, hashable_only=False):
+    if lf.alias:
+        cands = lf.hpool if hashable_only else lf.pool
+        if cands and rng.random() < 0.3:
+            lf.reused = getattr(lf, 'reused', 0) + 1
+            return rng.choice(cands)
+    v = _make_value(rng, depth, lf, hashable_only)
+    if lf.alias and isinstance(v, (list, tuple, set, frozenset, dict, collections.deque)) and len(v):
+        lf.pool.append(v)
+        if hashable_only:
+            lf.hpool.append(v)
+    return v
+
+
+def _make_value(rng, depth, lf, hashable_only=False):
     if depth == 0 or rng.random() < 0.3:
         if rng.random() < 0.2:
             lf.n += 1
@@ -400,8 +419,11 @@ def run_shard(sh):
             continue
         rng = V.rng_for('c11r', sh.seed, i)
         COMMENTS[0] = (i % 3 == 2)
-        value = rand_value(rng, 4, Leafs())
+        lf = Leafs(alias=(i % 2 == 1))
+        value = rand_value(rng, 4, lf)
         COMMENTS[0] = False
+        if getattr(lf, 'reused', 0):
+            sh.counters['random values with the same container object at several places'] += 1
         run_value(sh, value, {'kind': 'random', 'i': i, 'seed': sh.seed, 'key': repr(('r', sh.seed, i)), 'repr': describe(value) if i % 3 != 2 else '(commented value)'}, idx, quick)
         sh.counters['random values'] += 1
         if i % 3 == 2:
@@ -424,7 +446,7 @@ def rebuild(desc):
     rng = V.rng_for('c11r', desc['seed'], desc['i'])
     COMMENTS[0] = (desc['i'] % 3 == 2)
     try:
-        return rand_value(rng, 4, Leafs())
+        return rand_value(rng, 4, Leafs(alias=(desc['i'] % 2 == 1)))
     finally:
         COMMENTS[0] = False
 
